@@ -884,6 +884,9 @@ fn main() {
     let declared: Vec<String> = OPS.iter().filter(|o| o.is_commutative()).map(|o| format!("{o:?}")).collect();
     r.note("declared_commutative", json!(declared));
 
+    // wall caps: fractions of the global cap, and for thorough also absolute marks so that a loaded
+    // machine ends the run inside ~27 min (an idle 16-core box needs ~3-4 min for all three phases)
+    let over = |frac: f64, abs_s: f64| r.over_budget_frac(frac) || (r.thorough() && r.elapsed_s() > abs_s);
     let mut total = Acc::default();
 
     // Phase A
@@ -898,7 +901,7 @@ fn main() {
     let mut capped = false;
     let res: Vec<Option<Acc>> = items_a
         .par_iter()
-        .map(|(s, f)| if r.over_budget_frac(0.6) { None } else { Some(phase_a_item(&u, s, f)) })
+        .map(|(s, f)| if over(0.6, 1000.0) { None } else { Some(phase_a_item(&u, s, f)) })
         .collect();
     let mut a_runs = 0;
     for x in res {
@@ -923,7 +926,7 @@ fn main() {
     let mut capped = false;
     let res: Vec<Option<Acc>> = sets_b
         .par_iter()
-        .map(|s| if r.over_budget_frac(0.85) { None } else { Some(phase_b_item(&u, s, r.thorough())) })
+        .map(|s| if over(0.85, 1400.0) { None } else { Some(phase_b_item(&u, s, r.thorough())) })
         .collect();
     let mut b_runs = 0;
     for x in res {
@@ -947,7 +950,7 @@ fn main() {
     let mut capped = false;
     let res: Vec<Option<Acc>> = sets_c
         .par_iter()
-        .map(|s| if r.over_budget_frac(0.97) { None } else { Some(phase_c_item(&u, s)) })
+        .map(|s| if over(0.97, 1600.0) { None } else { Some(phase_c_item(&u, s)) })
         .collect();
     let mut c_runs = 0;
     for x in res {
